@@ -13,7 +13,7 @@ ASSUMPTIONS = [
     'traces_ref maps exactly the (inline no, crossline no) pairs carried by a source trace to its ordinal (infer_geometry builds it with a dict comprehension over the headers: read, not verified); '
     'the i-th populated grid position in row-major order is the i-th source trace because the source is inline-sorted (quantifier of C08)',
     'AX-NP-WHERE (boolean-mask selection = ascending positions where the mask holds), AX-SEGYIO-R for trace/header by ordinal',
-    'unstructured_io_thread_func unrolled per inline block extent 4 / 8; inline number 0 marks a hole in the mask (a survey whose real inline number is 0 is outside what the format can express)',
+    'unstructured_io_thread_func verified for a symbolic inline block extent (both loops as independent iterations) and unrolled for 4 / 8 as cross-check; LEMMA-RANGE-LEN (range(a, a+(n-1)s+1, s) has n elements) trusted; inline number 0 marks a hole in the mask (a survey whose real inline number is 0 is outside what the format can express)',
     'bounds of irregular trace ordinals follow numpy sequence semantics (negative ordinals wrap); gen_trace_header / get_tracefield_values on irregular files: only the parts shared with the regular contracts',
 ]
 TRUSTED = []
